@@ -305,16 +305,19 @@ Fixpoint parse_items (its : list string) : option (list bytes * list (string * m
       end
   end.
 
-Definition parse_step (st : string) : option mmsg :=
+(* step = id,R|Q,comp,items[,now]  — now: seconds on the harness' virtual clock (default 0) *)
+Definition parse_step (st : string) : option (mmsg * Z) :=
+  let mk := fun id qr items now =>
+    match N_of_dec id, parse_items (split "/"%char items), Z_of_dec now with
+    | Some id', Some (qs, rs), Some now' =>
+        (* the wire carries the sections in the order answer, authority, additional *)
+        let sect := fun k => map snd (filter (fun x => String.eqb (fst x) k) rs) in
+        Some (mkMsg id' (String.eqb qr "R") qs (sect "a" ++ sect "n" ++ sect "r")%list, now')
+    | _, _, _ => None
+    end in
   match split comma st with
-  | [id; qr; _; items] =>
-      match N_of_dec id, parse_items (split "/"%char items) with
-      | Some id', Some (qs, rs) =>
-          (* the wire carries the sections in the order answer, authority, additional *)
-          let sect := fun k => map snd (filter (fun x => String.eqb (fst x) k) rs) in
-          Some (mkMsg id' (String.eqb qr "R") qs (sect "a" ++ sect "n" ++ sect "r")%list)
-      | _, _ => None
-      end
+  | [id; qr; _; items] => mk id qr items "0"
+  | [id; qr; _; items; now] => mk id qr items now
   | _ => None
   end.
 
@@ -331,23 +334,23 @@ Fixpoint with_names (l : list ipname) (ref : list (bytes * bytes)) : list ipname
   | _, [] => []
   end.
 
-Definition spec_mdns (c : mcache) (mac : bytes) (m : mmsg) (r : list ipname * list ipname) : string :=
+Definition spec_mdns (c : mcache_t) (mac : bytes) (now : Z) (m : mmsg) (r : list ipname * list ipname) : string :=
   if negb (mm_response m) then
     match fst r with
     | e :: _ => show_mdns ([mkIPN [] (ref_query_name (mm_questions m)) [] (in_manu e)], [])
     | [] => if nonempty (ref_query_name (mm_questions m)) then "missing-query-name" else show_mdns r
     end
-  else if in_cache c mac (mm_id m) then show_mdns r
+  else if match cache_find c mac (mm_id m) with Some expiry => (now <? expiry)%Z | None => false end then show_mdns ([], [])
   else show_mdns (with_names (fst r) (ref_mdns_v4 (mm_resources m)), with_names (snd r) (ref_mdns_v6 (mm_resources m))).
 
-Fixpoint run_mdns (steps : list string) (c : mcache) (mac : bytes) (macc sacc : list string) : option (string * string) :=
+Fixpoint run_mdns (steps : list string) (c : mcache_t) (mac : bytes) (macc sacc : list string) : option (string * string) :=
   match steps with
   | [] => Some (join ";" (rev macc), join ";" (rev sacc))
   | st :: r =>
       match parse_step st with
-      | Some m =>
-          let '(res, c') := processMDNS c mac m in
-          run_mdns r c' mac (show_mdns res :: macc) (spec_mdns c mac m res :: sacc)
+      | Some (m, now) =>
+          let '(res, c') := processMDNS_at c mac now m in
+          run_mdns r c' mac (show_mdns res :: macc) (spec_mdns c mac now m res :: sacc)
       | None => None
       end
   end.
